@@ -35,7 +35,7 @@ def cmp_pair(rng, w, n):
 
 
 def _gen_main(rng, tier):
-    reps = 150 if tier == "thorough" else 20
+    reps = 150 if tier == "thorough" else 40
     for cfg in cfgs(tier):
         w, n = wn(cfg)
         for _ in range(reps if n <= 40 else 10):
